@@ -331,6 +331,54 @@ def check_reuse(pair):
     return None
 
 
+def check_agf_members():
+    """An aggregate whose member PDU is changed after the aggregate was
+    encoded / measured once: len() and encode() follow the members."""
+    import nfc.llcp.pdu as pdu
+    out = []
+    muts = [
+        ('UI.data', lambda m: setattr(m[0], 'data', pat(40, 5))),
+        ('CONNECT.sn', lambda m: setattr(m[1], 'sn', b'urn:nfc:sn:longer')),
+        ('SNL.sdreq', lambda m: m[2].sdreq.append((9, b'urn:nfc:sn:more'))),
+        ('I.data', lambda m: setattr(m[3], 'data', b'')),
+        ('append', None),
+    ]
+    for name, fn in muts:
+        for via in ('constructed', 'decoded'):
+            members = [pdu.UnnumberedInformation(4, 32, pat(3)),
+                       pdu.Connect(1, 33, 128, 1, b'urn:x'),
+                       pdu.ServiceNameLookup(1, 1, [(1, b'abc')], [(2, 16)]),
+                       pdu.Information(20, 21, 3, 9, pat(7))]
+            try:
+                agf = pdu.AggregatedFrame(0, 0, members)
+                if via == 'decoded':
+                    agf = pdu.decode(agf.encode())
+                    members = [m for m in agf]
+                len(agf)
+                agf.encode()
+                if fn is None:
+                    extra = pdu.ReceiveReady(22, 23, 5)
+                    agf.append(extra)
+                    members = members + [extra]
+                else:
+                    fn(members)
+                enc = agf.encode()
+                want = tuple(fields(m) for m in members)
+                got = fields(pdu.decode(enc))[3]
+                if len(agf) != len(enc):
+                    out.append(('d|len-after-member-change|AGF|%s' % name,
+                                dict(agf=via, changed=name, len=len(agf),
+                                     encoded=enc)))
+                elif got != want:
+                    out.append(('d|stale-encoding|AGF|%s' % name,
+                                dict(agf=via, changed=name, encoded=enc,
+                                     want=want, got=got)))
+            except Exception as e:
+                out.append(('d|AGF|%s|%s' % (name, sig_exc(e)),
+                            dict(agf=via, changed=name, error=repr(e))))
+    return out, 2 * len(muts)
+
+
 # -- (b) destructive ---------------------------------------------------------
 def tails():
     """Tails from the TLV boundary grammar (DESIGN C07/C11)."""
@@ -509,6 +557,12 @@ def work(unit):
                     run.outcome(('d', pr[0][0]))
                 else:
                     run.fail(v[0], v[1], key)
+        if arg and arg[0] == REUSE_PAIRS[0]:
+            bad, n = check_agf_members()
+            for sig, det in bad:
+                run.fail(sig, det, ('d-agf', sig))
+            for i in range(n - len(bad)):
+                run.ok(('d-agf', i))
         run.sample(dict(kind='reuse', pair=repr(arg[0])))
     elif kind == 'b':
         for b in arg:
@@ -616,6 +670,9 @@ def replay(doc):
         v = check_constructive(spec)
     elif sig.startswith('c|'):
         v = check_aggregate(bytes.fromhex(d['sub']), FOLLOWERS)
+    elif sig.startswith('d|') and 'agf' in d:
+        bad, n = check_agf_members()
+        v = ([b for b in bad if b[0] == sig] or [None])[0]
     elif sig.startswith('d|'):
         import ast
         pair = ast.literal_eval(d['pair']) if 'pair' in d else (
